@@ -211,6 +211,11 @@ def gen(rng):
         s = netgen.gen_heat_tree(rng)
         if rng.random() < 0.6:
             s["pipes"][int(rng.integers(0, len(s["pipes"])))]["in_service"] = False
+        if rng.random() < 0.5:
+            # a part that is supplied hydraulically but reached by no temperature source: which elements carry thermal results
+            # must not depend on whether the thermal system is solved after (sequential) or together with the hydraulics
+            netgen.add_thermal_island(rng, s)
+            s["c04_thermal_modes"] = True
     return label_elements(s)
 
 
@@ -219,8 +224,39 @@ def nan_rows(df, cols):
     return df[cols].isna().all(axis=1)
 
 
+def thermal_pattern(spec):
+    """NaN pattern of every temperature column, sequential vs bidirectional"""
+    pats = {}
+    for mode in ("sequential", "bidirectional"):
+        net, e = netgen.try_run(spec, **dict(oracles.TIGHT, mode=mode))
+        if e is not None:
+            return None, "skip:%s:%s" % (mode, type(e).__name__)
+        pat = {}
+        for t in oracles.res_tables(net):
+            for c in net[t].columns:
+                if c.startswith("t_") or c == "t_k":
+                    pat[(t, c)] = tuple(bool(x) for x in np.isnan(net[t][c].values.astype(float)))
+        pats[mode] = pat
+    fails = []
+    for key in sorted(pats["sequential"]):
+        a, b = pats["sequential"][key], pats["bidirectional"].get(key)
+        if b is not None and a != b:
+            rows = [i for i, (x, y) in enumerate(zip(a, b)) if x != y][:4]
+            fails.append({"fingerprint": "C04:thermal-result-pattern:%s.%s" % key, "clause": "elements outside the thermal system report NaN temperatures",
+                          "detail": {"table": key[0], "column": key[1], "rows": rows,
+                                     "nan_in_sequential": [a[i] for i in rows], "nan_in_bidirectional": [b[i] for i in rows]}})
+            break
+    return fails, None
+
+
 def oracle(spec):
     from pandapipes.pf.pipeflow_setup import PipeflowNotConverged
+    if spec.get("c04_thermal_modes"):
+        fails, skip = thermal_pattern(spec)
+        if skip:
+            return {"status": skip}
+        return {"status": "ok", "failures": fails, "hash": netgen.structure_hash(spec) + "TM", "nontrivial": True, "tags": ["thermal-modes"],
+                "sample": dict(netgen.summarize(spec), thermal_island=True)}
     pred = predict(spec)
     net, e = netgen.try_run(spec, **oracles.TIGHT)
     fails = []
